@@ -159,7 +159,7 @@ def _derives_from_param(fn, a, pos, param):
         if len(ds) != 1 or ds[0][2] != "assign":
             return False
         r = ds[0][3]
-        if r["k"] in ("ref", "copyforderef") and not r["p"]["proj"]:
+        if r["k"] in ("ref", "copyforderef") and all(pe[0] == "deref" for pe in r["p"]["proj"]):      # &x, &*x (reborrow)
             l = r["p"]["l"]
             pos = (ds[0][0], ds[0][1])
         elif r["k"] == "use" and r["a"].get("k") in ("copy", "move") and not r["a"]["p"]["proj"]:
